@@ -82,6 +82,7 @@ def run(rep):
                           "gepard.evolution.evolop(th, j, Q2, process_class)")
         rep.violation(key, what, d, found_input=True)
 
+    _prev = []
     while done < ntheories and attempts < 20 * ntheories:
         attempts += 1
         nf, p, scheme = combos[attempts % len(combos)] if attempts <= 2 * len(combos) else rng.choice(combos)
@@ -89,6 +90,13 @@ def run(rep):
         Q2 = 10 ** rng.uniform(0, 4) if rng.random() < 0.8 else rng.uniform(1, 10)
         a0 = rng.uniform(0.005, 0.08)
         r20 = 2.5 if rng.random() < 0.3 else rng.uniform(1, 10)
+        # every other theory repeats the previous scales and coupling with ANOTHER flavour number / order
+        # (hidden state keyed on part of the arguments shows only then)
+        if _prev and rng.random() < 0.5:
+            Q02, Q2, a0, r20, nf_prev = _prev[0]
+            nf = rng.choice([n_ for n_ in (3, 4, 5) if n_ != nf_prev])
+            rep.hist('scales', 'repeated with another nf')
+        _prev[:] = [(Q02, Q2, a0, r20, nf)]
         A = qcd.as2pf(p, nf, Q2, a0, r20)
         A0 = qcd.as2pf(p, nf, Q02, a0, r20)
         if not (0 < A <= 0.1) or not (0 < A0 < 1.0):
